@@ -433,6 +433,41 @@ def dlgraph_history(g, rng, queries=(), boolean=True):
                 if dist[(a, k)] + dist[(k, b)] < dist[(a, b)]:
                     dist[(a, b)] = dist[(a, k)] + dist[(k, b)]
     facts = [le(a, b, c) for (a, b), c in edges.items()]
+    rng.shuffle(facts)
+    late = None
+    if len(vs) >= 5 and rng.random() < 0.6:
+        # the skeleton r -> s -> p -> m -> t with a heavy shortcut s -> m: light edge of the diamond first, heavy one
+        # second, the edge into the diamond last
+        r_, s_, p_, m_, t_ = vs[:5]
+        heavy = rng.choice([3, 5, 10])
+        edges[(s_, m_)] = max(edges.get((s_, m_), heavy), edges[(s_, p_)] + edges[(p_, m_)] + 1)
+        skeleton = [le(s_, p_, edges[(s_, p_)]), le(s_, m_, edges[(s_, m_)]), le(p_, m_, edges[(p_, m_)]), le(m_, t_, edges[(m_, t_)])]
+        if rng.random() < 0.5:
+            skeleton[2], skeleton[3] = skeleton[3], skeleton[2]
+        late = le(r_, s_, edges[(r_, s_)])
+        if rng.random() < 0.7:
+            # only the skeleton: other edges open routes around the diamond
+            for key in [k for k in edges if k not in ((s_, p_), (s_, m_), (p_, m_), (m_, t_), (r_, s_))]:
+                del edges[key]
+        rest = [le(a, b, c) for (a, b), c in edges.items()]
+        rest = [f for f in rest if f not in skeleton and f != late]
+        rng.shuffle(rest)
+        k_ = rng.randint(0, len(rest))
+        facts = rest[:k_] + skeleton + rest[k_:] + [late]
+    elif rng.random() < 0.6:
+        # one edge of the light path arrives after everything behind it: the solver's search for consequences starts at
+        # the new edge and runs through the already present diamonds
+        i = rng.randrange(0, max(1, len(vs) - 2))
+        late = le(vs[i], vs[i + 1], edges[(vs[i], vs[i + 1])])
+        facts = [f for f in facts if f != late] + [late]
+    dist = {(a, b): (0 if a == b else INF) for a in vs for b in vs}
+    for (a, b), c in edges.items():
+        dist[(a, b)] = min(dist[(a, b)], c)
+    for k in vs:
+        for a in vs:
+            for b in vs:
+                if dist[(a, k)] + dist[(k, b)] < dist[(a, b)]:
+                    dist[(a, b)] = dist[(a, k)] + dist[(k, b)]
     reach = [(a, b) for a in vs for b in vs if a != b and dist[(a, b)] < INF]
     goals = []
     for _ in range(rng.randint(1, 3)):
@@ -442,12 +477,19 @@ def dlgraph_history(g, rng, queries=(), boolean=True):
         d = dist[(a, b)]
         k = d + rng.choice([0, -1, 1, 2, 3, -2])
         goals.append(tb.app("not", [le(a, b, k)]) if rng.random() < 0.7 else tb.app(">", [tb.app("-", [a, b]), num(k)]))
-    rng.shuffle(facts)
+    if late is not None and reach:
+        # a bound between the two ends of the path through the late edge
+        i = next(k for k in range(len(vs) - 1) if le(vs[k], vs[k + 1], edges[(vs[k], vs[k + 1])]) == late)
+        far = [b for b in vs[i + 2:] if dist[(vs[i], b)] < INF]
+        if far:
+            b = far[-1] if rng.random() < 0.7 else rng.choice(far)      # mostly the far end: a vertex behind the diamond
+            d = dist[(vs[i], b)]
+            goals.append(tb.app("not", [le(vs[i], b, d + rng.choice([0, 1, 2, 3]))]))
     cmds = []
     depth = 0
     bools = list(g.bools)
     items = facts + goals
-    if rng.random() < 0.6:
+    if late is None and rng.random() < 0.6:
         rng.shuffle(items)
     for i, f in enumerate(items):
         if boolean and rng.random() < 0.25 and bools:
